@@ -1,5 +1,6 @@
 import DinoProofs.Lemmas.Shard
 import DinoProofs.Lemmas.ShardPad
+import DinoProofs.Properties.C15
 
 /-!
 # C07 — sharded (model-parallel) execution equals single-device execution: property theorems
@@ -300,5 +301,167 @@ example : verticalPad 0 (some 2) [7, 8, 9] = some ([7, 8, 9, 0], some 1)
   decide
 
 end vertical
+
+/-! ## T7.8 — step filters on padded layouts (statement shared with `DinoProofs/Properties/C15.lean`) -/
+
+section filters
+open Dino.Filters
+
+section maxpad
+variable {R : Type} [LinearOrder R] [Zero R] [dlt : DecidableLT R]
+
+theorem foldl_max_zeros (k : Nat) (m : R) (hm : 0 ≤ m) :
+    (List.replicate k (0 : R)).foldl (fun m x => if m < x then x else m) m = m := by
+  induction k with
+  | zero => rfl
+  | succ k ih =>
+    rw [List.replicate_succ, List.foldl_cons, if_neg (not_lt.2 hm), ih]
+
+/-- `np.max` of a non-negative axis does not see trailing zero padding -/
+theorem maxL_padded (ls : List R) (k : Nat) (hne : ls ≠ []) (h0 : ∀ l ∈ ls, 0 ≤ l) :
+    maxL (ls ++ List.replicate k 0) = maxL ls := by
+  cases ls with
+  | nil => exact absurd rfl hne
+  | cons a t =>
+    simp only [List.cons_append, maxL, List.foldl_append, Option.some.injEq]
+    apply foldl_max_zeros
+    have := (maxL_spec (a :: t) _ rfl).1
+    exact h0 _ this
+
+end maxpad
+
+/-- exponential (step) filter: the scaling built from a zero-padded wavenumber axis is the scaling
+ of the unpadded axis followed by ones — same normalisation `lmax`, same factors on the resolved
+ wavenumbers, neutral on the padding -/
+theorem expScaling_padded (a : ℝ) (p : ℕ) (c : ℝ) (ls : List ℝ) (k : ℕ) (hc : 0 ≤ c) (hc1 : c < 1)
+    (h0 : ∀ l ∈ ls, 0 ≤ l) (hpos : ∃ l ∈ ls, 0 < l) :
+    ∃ s, expScaling Real.exp a p c ls = some s ∧ s.length = ls.length
+      ∧ expScaling Real.exp a p c (ls ++ List.replicate k 0) = some (s ++ List.replicate k 1) := by
+  obtain ⟨l0, hl0, hl0pos⟩ := hpos
+  have hne : ls ≠ [] := List.ne_nil_of_mem hl0
+  obtain ⟨lmax, hm⟩ := maxL_isSome ls hne
+  have hmpos : 0 < lmax := lt_of_lt_of_le hl0pos ((maxL_spec ls lmax hm).2 l0 hl0)
+  refine ⟨ls.map (expFactor Real.exp a p c lmax), by simp [expScaling, hm], by simp, ?_⟩
+  simp only [expScaling, maxL_padded ls k hne h0, hm, Option.map_some, List.map_append,
+    List.map_replicate, C15.expFactor_mean a p c lmax hc hc1 hmpos]
+
+theorem expStepScaling_padded (dt tau : ℝ) (p : ℕ) (c : ℝ) (ls : List ℝ) (k : ℕ) (hc : 0 ≤ c)
+    (hc1 : c < 1) (h0 : ∀ l ∈ ls, 0 ≤ l) (hpos : ∃ l ∈ ls, 0 < l) :
+    ∃ s, expStepScaling Real.exp dt tau p c ls = some s ∧ s.length = ls.length
+      ∧ expStepScaling Real.exp dt tau p c (ls ++ List.replicate k 0) = some (s ++ List.replicate k 1) :=
+  expScaling_padded _ p c ls k hc hc1 h0 hpos
+
+theorem eigenvalues_padded (radius : ℝ) (ls : List ℝ) (k : ℕ) :
+    eigenvalues radius (ls ++ List.replicate k 0) = eigenvalues radius ls ++ List.replicate k 0 := by
+  simp [eigenvalues, eigenvalue]
+
+/-- diffusion step filter (current code): the normaliser `np.abs(eigenvalues).max()` is the one of
+ the unpadded axis, it is positive (so `dt / (tau · m^order)` is a guarded division), and the
+ scaling is the unpadded scaling followed by the factor of eigenvalue 0 (`1` for `order ≥ 1`) -/
+theorem diffStepScaling_padded (dt tau : ℝ) (order : ℕ) (radius : ℝ) (ls : List ℝ) (k : ℕ)
+    (htau : tau ≠ 0) (hr : radius ≠ 0) (h0 : ∀ l ∈ ls, 0 ≤ l) (hpos : ∃ l ∈ ls, 0 < l) :
+    ∃ m sc s, maxAbs (eigenvalues radius (ls ++ List.replicate k 0)) = some m ∧ 0 < m
+      ∧ tau * powN m order ≠ 0
+      ∧ diffStepScale dt tau order (eigenvalues radius ls) = some sc
+      ∧ diffStepScale dt tau order (eigenvalues radius (ls ++ List.replicate k 0)) = some sc
+      ∧ diffStepScaling Real.exp dt tau order (eigenvalues radius ls) = some s
+      ∧ s.length = ls.length
+      ∧ diffStepScaling Real.exp dt tau order (eigenvalues radius (ls ++ List.replicate k 0))
+          = some (s ++ List.replicate k (diffFactor Real.exp sc order 0)) := by
+  obtain ⟨m, hm, hmpos, hguard, _⟩ := C15.diffStepScale_guard tau order radius ls htau hr h0 hpos
+  obtain ⟨l0, hl0, _⟩ := hpos
+  have hmax : maxAbs (eigenvalues radius (ls ++ List.replicate k 0)) = some m := by
+    rw [eigenvalues_padded, maxAbs, List.map_append, List.map_replicate,
+      show absV (0 : ℝ) = 0 by simp [absV]]
+    rw [maxL_padded _ k (by simp [eigenvalues, List.ne_nil_of_mem hl0])
+      (fun l hl => by
+        obtain ⟨e, _, rfl⟩ := List.mem_map.1 hl
+        rw [C15.absV_eq_abs]; exact abs_nonneg e)]
+    exact hm
+  refine ⟨m, dt / (tau * powN m order), diffScaling Real.exp (dt / (tau * powN m order)) order
+    (eigenvalues radius ls), hmax, hmpos, hguard, by simp [diffStepScale, hm],
+    by simp [diffStepScale, hmax], by simp [diffStepScaling, diffStepScale, hm],
+    by simp [diffScaling, eigenvalues], ?_⟩
+  simp only [diffStepScaling, diffStepScale, hmax, Option.map_some]
+  rw [eigenvalues_padded]
+  simp [diffScaling]
+
+/-- neutral on the padding when `order ≥ 1` -/
+theorem diffFactor_padding (sc : ℝ) (order : ℕ) (ho : 1 ≤ order) : diffFactor Real.exp sc order 0 = 1 := by
+  rw [C15.diffFactor_eq, neg_zero, zero_pow (by omega), mul_zero, Real.exp_zero]
+
+/-- the code before commit 3d38ca0 normalised with `eigenvalues[-1]`, which is `0` on every padded
+ layout: the division `dt / (tau · 0)` is unguarded (IEEE: `inf`, then `inf · 0 = NaN`) -/
+theorem diffStepScaleOld_padded_unguarded (dt tau : ℝ) (order : ℕ) (radius : ℝ) (ls : List ℝ) (k : ℕ)
+    (ho : 1 ≤ order) :
+    diffStepScaleOld dt tau order (eigenvalues radius (ls ++ List.replicate (k + 1) 0))
+      = some (dt / (tau * powN (absV (eigenvalue radius 0)) order))
+    ∧ tau * powN (absV (eigenvalue radius 0)) order = 0 := by
+  have := C15.diffStepScaleOld_guard_fails dt tau order radius (ls ++ List.replicate k 0) ho
+  rwa [List.append_assoc, ← List.replicate_succ'] at this
+
+section leaf
+variable {K : Type} [Field K]
+
+theorem mapIdx_rows (s : List K) (hs : 0 < s.length) : ∀ (rows : List (List K)),
+    (∀ r ∈ rows, r.length = s.length) →
+    (rows.flatten.mapIdx fun i v => s.getD (i % s.length) 0 * v)
+      = (rows.map fun r => List.zipWith (· * ·) s r).flatten
+  | [], _ => by simp
+  | r :: t, h => by
+    have hr : r.length = s.length := h r (by simp)
+    simp only [List.flatten_cons, List.map_cons, List.mapIdx_append]
+    congr 1
+    · apply List.ext_getElem
+      · simp [hr]
+      · intro i h1 h2
+        simp only [List.length_mapIdx] at h1
+        simp only [List.getElem_mapIdx, List.getElem_zipWith]
+        rw [Nat.mod_eq_of_lt (by omega), List.getD_eq_getElem?_getD, List.getElem?_eq_getElem (by omega)]
+        rfl
+    · have := mapIdx_rows s hs t (fun r' hr' => h r' (by simp [hr']))
+      rw [← this, hr]
+      simp only [Nat.add_mod_right]
+
+/-- `_make_filter_fn` on a spectral leaf given by its rows (any leading axes `init`): each row is
+ multiplied entrywise by the 1-D scaling -/
+theorem filterLeaf_rows (s : List K) (hs : 0 < s.length) (init : List Nat) (rows : List (List K))
+    (h : ∀ r ∈ rows, r.length = s.length) :
+    filterLeaf [s.length] s (init ++ [s.length], rows.flatten)
+      = (init ++ [s.length], (rows.map fun r => List.zipWith (· * ·) s r).flatten) := by
+  rw [C15.filterLeaf_last_axis, mapIdx_rows s hs rows h]
+
+/-- **T7.8** a step filter on a zero-padded layout: filtering the padded leaf with the padded
+ scaling (`s` on the resolved wavenumbers, anything finite `p` on the padding) gives the padding of
+ the unpadded filter applied to the unpadded leaf — resolved coefficients are filtered exactly as
+ without padding, the padding stays zero. -/
+theorem filterLeaf_padded (s p : List K) (hs : 0 < s.length) (init : List Nat)
+    (rows : List (List K)) (h : ∀ r ∈ rows, r.length = s.length) :
+    filterLeaf [(s ++ p).length] (s ++ p)
+        (init ++ [(s ++ p).length], (rows.map (· ++ List.replicate p.length 0)).flatten)
+      = (init ++ [(s ++ p).length],
+          ((rows.map fun r => List.zipWith (· * ·) s r).map (· ++ List.replicate p.length 0)).flatten)
+    ∧ filterLeaf [s.length] s (init ++ [s.length], rows.flatten)
+      = (init ++ [s.length], (rows.map fun r => List.zipWith (· * ·) s r).flatten) := by
+  refine ⟨?_, filterLeaf_rows s hs init rows h⟩
+  rw [filterLeaf_rows (s ++ p) (by simp; omega) init _ (by
+    intro r hr
+    obtain ⟨r0, hr0, rfl⟩ := List.mem_map.1 hr
+    simp [h r0 hr0])]
+  congr 2
+  rw [List.map_map, List.map_map]
+  apply List.map_congr_left
+  intro r hr
+  simp only [Function.comp]
+  rw [List.zipWith_append (by rw [h r hr])]
+  congr 1
+  apply List.ext_getElem
+  · simp
+  · intro i h1 h2
+    simp
+
+end leaf
+
+end filters
 
 end Dino.C07
